@@ -392,7 +392,7 @@ def _memo_selfcheck():
     return _memo_reads_registry(bad) is not None and _memo_reads_registry(good) is None
 
 CLAIM = {
-    "text": "Decides the table-and-pairing discipline every conversion relies on: the three parallel core tables (names, dtypes, defaults) have matching positions with the documented defaults (NaN, NaN, 0); non_sampling_* = core ++ extra; registering an extra field updates name, dtype and default together, at most once, and every path ends by invalidating the caches; the set of lazily cached attributes equals the set cleared by reset_properties and nothing else writes them or the registry; get_dtype puts the caller's names first in the caller's order and zips non-sampling names with dtypes; empty arrays zip names with defaults; plain arrays are copied column i -> names[i]; single-point constructors append the non-sampling defaults after the parameters; the unstructured view contains no copying primitive and is ndarray(shape, dtype, buffer=x, 0, strides).view(...) over exactly the requested fields. A memoised function (lru_cache / cache) does not read the live-point registry unless everything that changes the registry clears it (R-MEMO, fixtures re-decided on every run); positional views are combined only with scalars. Plain arrays are copied column by name on every path, or re-read row-wise as records only under a C-contiguity test (C18.4).",
+    "text": "Decides the table-and-pairing discipline every conversion relies on: the three parallel core tables (names, dtypes, defaults) have matching positions with the documented defaults (NaN, NaN, 0); non_sampling_* = core ++ extra; registering an extra field updates name, dtype and default together, at most once, and every path ends by invalidating the caches; the set of lazily cached attributes equals the set cleared by reset_properties and nothing else writes them or the registry; get_dtype puts the caller's names first in the caller's order and zips non-sampling names with dtypes; empty arrays zip names with defaults; plain arrays are copied column i -> names[i]; single-point constructors append the non-sampling defaults after the parameters; the unstructured view contains no copying primitive and is ndarray(shape, dtype, buffer=x, 0, strides).view(...) over exactly the requested fields. A memoised function (lru_cache / cache) does not read the live-point registry unless everything that changes the registry clears it (R-MEMO, fixtures re-decided on every run); positional views are combined only with scalars. Plain arrays are copied column by name on every path, or re-read row-wise as records only under a C-contiguity test (C18.4). The data-frame constructor may select columns, but rows and dtype use the same selection and it keeps the frame's own column order (pandas.Index.difference sorts unless sort=False).",
     "note": "Value round-trips for arbitrary names, shapes and float values (NaN/inf) are runtime behaviour of numpy/pandas and are not decided; only the construction discipline is.",
 }
 
